@@ -118,6 +118,30 @@ fn file_name(f: &sylt_common::FileOrLib) -> String {
     }
 }
 
+/// (line_start, line_end, col_start, col_end) of a span, whether `Span` exposes them as fields or as accessors of the
+/// same names (build.rs looks at the source this crate links against)
+#[cfg(span_fields)]
+pub fn span_parts(s: &sylt_tokenizer::Span) -> (usize, usize, usize, usize) {
+    (s.line_start, s.line_end, s.col_start, s.col_end)
+}
+#[cfg(not(span_fields))]
+pub fn span_parts(s: &sylt_tokenizer::Span) -> (usize, usize, usize, usize) {
+    (s.line_start(), s.line_end(), s.col_start(), s.col_end())
+}
+
+/// a span's parts as plain fields
+#[derive(Clone, Copy, Debug)]
+pub struct Sp {
+    pub line_start: usize,
+    pub line_end: usize,
+    pub col_start: usize,
+    pub col_end: usize,
+}
+pub fn sp_of(s: &sylt_tokenizer::Span) -> Sp {
+    let (line_start, line_end, col_start, col_end) = span_parts(s);
+    Sp { line_start, line_end, col_start, col_end }
+}
+
 pub fn summarise(e: &Error, render: bool) -> ErrSummary {
     let (kind, file, span) = match e {
         Error::NoFileGiven => ("NoFileGiven", String::new(), None),
@@ -145,10 +169,10 @@ pub fn summarise(e: &Error, render: bool) -> ErrSummary {
     ErrSummary {
         kind,
         file,
-        line: span.map(|s| s.line_start).unwrap_or(0),
-        line_end: span.map(|s| s.line_end).unwrap_or(0),
-        col_start: span.map(|s| s.col_start).unwrap_or(0),
-        col_end: span.map(|s| s.col_end).unwrap_or(0),
+        line: span.map(|s| span_parts(&s).0).unwrap_or(0),
+        line_end: span.map(|s| span_parts(&s).1).unwrap_or(0),
+        col_start: span.map(|s| span_parts(&s).2).unwrap_or(0),
+        col_end: span.map(|s| span_parts(&s).3).unwrap_or(0),
         dbg,
         rendered,
     }
